@@ -1,9 +1,7 @@
 import Gen.de_idnr
-import Gen.id_npwp
 import Props.C17c
-import Props.C11data.id_loc_link
 /-!
-# C17, continued — `de.idnr` (ISO 7064 Mod 11,10) and `id.npwp` (Luhn over a prefix)
+# C17, continued — `de.idnr` (ISO 7064 Mod 11,10); `id.npwp` is in `C17g` (separate files fail separately)
 
 Same theorem shapes and machinery as `Props/C17b.lean` (`invert_validate`, `Wraps`, `WrapsSel`, `reject_of_ok`).
 
@@ -45,156 +43,7 @@ example : isOk (Gen.de_idnr.validate (str% "36574261800")) = false :=
   de_idnr_single_error _ _ ex_de_idnr 10 48 (by decide) (by decide) (by decide)
 
 
-/-! ## stdnum.id.npwp (15 digits: Luhn over the first 9; 16 digits with a leading `0`: Luhn over the first 10;
-16 digits otherwise: a NIK, which has no check digit and is outside the property) -/
-
-theorem take10 (s : Str) : slice s none (some 10) = s.take 10 := slice_none_nonneg s (by decide)
-
-/-- what an accepted NPWP is: digits, returned unchanged when the input was digits already, and one of the
-three readings -/
-theorem id_npwp_ok (x v : Str) (h : Gen.id_npwp.validate x = .ok v) :
-    (AllIn isAsciiDigit x → v = x) ∧
-      (AllIn isAsciiDigit v ∧
-        ((v.length = 15 ∧ isOk (Gen.luhn.validate (v.take 9) d10) = true) ∨
-         (v.length = 16 ∧ startswith v [48] = false) ∨
-         (v.length = 16 ∧ startswith v [48] = true ∧ isOk (Gen.luhn.validate (v.take 10) d10) = true))) := by
-  unfold Gen.id_npwp.validate Gen.id_npwp.compact at h
-  invert_validate h
-  generalize hn : strip (cleanP x [32, 45, 46]) = n at h
-  rw [take9, take10] at h
-  obtain ⟨hd, hcase⟩ := h
-  have hD := digits_of_isDigitsB hd
-  have hx : AllIn isAsciiDigit x → n = x := fun hx => by rw [← hn, digits_compact hx _ (by decide)]
-  rcases hcase with ⟨h15, a, hl, rfl⟩ | ⟨_, h16, ⟨hs, hnik⟩ | ⟨hs, a, hl, rfl⟩⟩
-  · exact ⟨hx, hD, Or.inl ⟨by omega, isOk_true_of_ok hl⟩⟩
-  · unfold Gen.id_nik.validate Gen.id_nik.compact at hnik
-    invert_validate hnik
-    obtain ⟨_, _, _, _, _, _, hv⟩ := hnik
-    rw [digits_compact hD _ (by decide)] at hv
-    subst hv
-    exact ⟨hx, hD, Or.inr (Or.inl ⟨by omega, hs⟩)⟩
-  · exact ⟨hx, hD, Or.inr (Or.inr ⟨by omega, hs, isOk_true_of_ok hl⟩)⟩
-
-theorem startswith_set_succ (v p : Str) (i c : Nat) (hp : p.length ≤ i) :
-    startswith (v.set i c) p = startswith v p := by
-  unfold startswith
-  induction p generalizing v i with
-  | nil => simp
-  | cons a p ih =>
-    cases v with
-    | nil => simp
-    | cons b v =>
-      cases i with
-      | zero => simp at hp
-      | succ i =>
-        simp only [List.set_cons_succ, List.isPrefixOf_cons_cons]
-        rw [ih v i (by simpa using hp)]
-
-/-- old 15-digit NPWP: the Luhn digit protects the first nine digits -/
-theorem id_npwp15_single_error_partial (x v : Str) (h : Gen.id_npwp.validate x = .ok v) (h15 : v.length = 15)
-    (i c : Nat) (h9 : i < 9) (hc : isAsciiDigit c = true) (hne : c ≠ v[i]'(by omega)) :
-    isOk (Gen.id_npwp.validate (v.set i c)) = false := by
-  obtain ⟨_, hD, hcase⟩ := id_npwp_ok x v h
-  have hL : isOk (Gen.luhn.validate (v.take 9) d10) = true := by
-    rcases hcase with ⟨_, hL⟩ | ⟨h16, _⟩ | ⟨h16, _⟩
-    · exact hL
-    · omega
-    · omega
-  have hj : i < (v.take 9).length := by simp; omega
-  have hdet : isOk (Gen.luhn.validate ((v.take 9).set i c) d10) = false :=
-    luhn_detects (v.take 9) i c hj (fun a ha => hD a (List.mem_of_mem_take ha)) hc
-    (by rw [List.getElem_take]; exact hne) hL
-  cases hw : Gen.id_npwp.validate (v.set i c) with
-  | error e => rfl
-  | ok v' =>
-    obtain ⟨hxw, _, hcw⟩ := id_npwp_ok _ _ hw
-    obtain rfl := hxw (allIn_set hD i c hc)
-    rcases hcw with ⟨_, hL'⟩ | ⟨h16, _⟩ | ⟨h16, _⟩
-    · rw [List.take_set, hdet] at hL'; cases hL'
-    · simp at h16; omega
-    · simp at h16; omega
-
-/-- 16-digit NPWP with the leading `0`: the Luhn digit protects positions 1–9 (position 0 selects the reading) -/
-theorem id_npwp16_single_error_partial (x v : Str) (h : Gen.id_npwp.validate x = .ok v) (h16 : v.length = 16)
-    (h0 : startswith v [48] = true)
-    (i c : Nat) (h1 : 1 ≤ i) (h10 : i < 10) (hc : isAsciiDigit c = true) (hne : c ≠ v[i]'(by omega)) :
-    isOk (Gen.id_npwp.validate (v.set i c)) = false := by
-  obtain ⟨_, hD, hcase⟩ := id_npwp_ok x v h
-  have hL : isOk (Gen.luhn.validate (v.take 10) d10) = true := by
-    rcases hcase with ⟨h15, _⟩ | ⟨_, hs⟩ | ⟨_, _, hL⟩
-    · omega
-    · rw [h0] at hs; cases hs
-    · exact hL
-  have hj : i < (v.take 10).length := by simp; omega
-  have hdet : isOk (Gen.luhn.validate ((v.take 10).set i c) d10) = false :=
-    luhn_detects (v.take 10) i c hj (fun a ha => hD a (List.mem_of_mem_take ha)) hc
-    (by rw [List.getElem_take]; exact hne) hL
-  cases hw : Gen.id_npwp.validate (v.set i c) with
-  | error e => rfl
-  | ok v' =>
-    obtain ⟨hxw, _, hcw⟩ := id_npwp_ok _ _ hw
-    obtain rfl := hxw (allIn_set hD i c hc)
-    rw [startswith_set_succ v [48] i c (by simpa using h1)] at hcw
-    rcases hcw with ⟨h15, _⟩ | ⟨_, hs⟩ | ⟨_, _, hL'⟩
-    · simp at h15; omega
-    · rw [h0] at hs; cases hs
-    · rw [List.take_set, hdet] at hL'; cases hL'
-
-theorem ex_npwp15 : Gen.id_npwp.validate (str% "01.300.066.6-091.000") = .ok (str% "013000666091000") := by
-  decide +kernel
-example : isOk (Gen.id_npwp.validate (str% "013000666091000")) = true := by decide +kernel
-example : isOk (Gen.id_npwp.validate (str% "013100666091000")) = false :=
-  id_npwp15_single_error_partial _ _ ex_npwp15 (by decide) 3 49 (by decide) (by decide) (by decide)
-
-theorem ex_npwp16 : Gen.id_npwp.validate (str% "0831326608101000") = .ok (str% "0831326608101000") := by
-  decide +kernel
-example : isOk (Gen.id_npwp.validate (str% "0831326708101000")) = false :=
-  id_npwp16_single_error_partial _ _ ex_npwp16 (by decide) (by decide) 7 55 (by decide) (by decide) (by decide)
-    (by decide)
-
-/-- the full-strength statement is **false** of the code: the last six digits of a 15-digit NPWP (tax office
-and branch code) are not covered by the check digit.  `013000666091000` → `013000666091001`, both accepted. -/
-theorem id_npwp_single_error_false :
-    ¬ ∀ (x v : Str), Gen.id_npwp.validate x = .ok v → ∀ (i c : Nat) (hi : i < v.length),
-      isAsciiDigit c = true → c ≠ v[i] → isOk (Gen.id_npwp.validate (v.set i c)) = false := by
-  intro H
-  have := H _ _ ex_npwp15 14 49 (by decide) (by decide) (by decide)
-  revert this
-  decide +kernel
-
-
-/-- `1831326608101000` is a NIK (its registration place `1831` is looked up in the embedded `id/loc.dat`, which
-the kernel has read itself: `Props.C11.Data.id_loc.db_eq`) -/
-theorem ex_npwp_nik :
-    Gen.id_npwp.validate [49, 56, 51, 49, 51, 50, 54, 54, 48, 56, 49, 48, 49, 48, 48, 48] =
-      .ok [49, 56, 51, 49, 51, 50, 54, 54, 48, 56, 49, 48, 49, 48, 48, 48] := by
-  unfold Gen.id_npwp.validate Gen.id_nik.validate Gen.id_nik._check_registration_place
-  rw [Props.C11.Data.id_loc.db_eq]
-  decide +kernel
-
-/-- position 0 of a 16-digit NPWP is **not** protected either, although it lies inside `number[:10]`: replacing
-the leading `0` switches `validate` to the NIK reading, which has no check digit.
-`0831326608101000` → `1831326608101000`, both accepted. -/
-theorem id_npwp16_single_error_false :
-    ¬ ∀ (x v : Str), Gen.id_npwp.validate x = .ok v → v.length = 16 → startswith v [48] = true →
-      ∀ (i c : Nat) (hi : i < v.length), i < 10 → isAsciiDigit c = true → c ≠ v[i] →
-        isOk (Gen.id_npwp.validate (v.set i c)) = false := by
-  intro H
-  have := H _ _ ex_npwp16 (by decide) (by decide) 0 49 (by decide) (by decide) (by decide) (by decide)
-  have e : (List.set [48, 56, 51, 49, 51, 50, 54, 54, 48, 56, 49, 48, 49, 48, 48, 48] 0 49 : Str) =
-      [49, 56, 51, 49, 51, 50, 54, 54, 48, 56, 49, 48, 49, 48, 48, 48] := rfl
-  rw [e, ex_npwp_nik] at this
-  cases this
-
 end Props.C17
 
 #print axioms Props.C17.de_idnr_single_error
 #print axioms Props.C17.ex_de_idnr
-#print axioms Props.C17.id_npwp_ok
-#print axioms Props.C17.id_npwp15_single_error_partial
-#print axioms Props.C17.id_npwp16_single_error_partial
-#print axioms Props.C17.id_npwp_single_error_false
-#print axioms Props.C17.id_npwp16_single_error_false
-#print axioms Props.C17.ex_npwp_nik
-#print axioms Props.C17.ex_npwp15
-#print axioms Props.C17.ex_npwp16
